@@ -238,4 +238,6 @@ Unreach_NoGhostInvoke == ~PropAntecedent(st).NoGhostInvoke
 Unreach_StreamOwnerIsReserver == ~PropAntecedent(st).StreamOwnerIsReserver
 Unreach_OkHasBody == ~PropAntecedent(st).OkHasBody
 Unreach_ResetIsFresh == ~PropAntecedent(st).ResetIsFresh
+\* the configurations with IntNames # {}: an internal extension is busy with the event of an invocation in flight
+Unreach_InternalBusy == ~(\E a \in IntNames : a \in DOMAIN st.ag /\ st.ag[a].st = "Running" /\ st.srv.inv # 0)
 =============================================================================
